@@ -16,6 +16,7 @@ Beh   ::= {"b":"ok"|"raise"|"suspend_ok"|"suspend_raise", "t": virtual seconds (
 
 import asyncio
 import logging
+from collections.abc import Sequence
 
 from haiway import Disposables, MissingContext, MissingState, State, ctx
 
@@ -58,6 +59,81 @@ def make_state(sv) -> State:
 
 def sentinels() -> dict[str, State]:
     return {n: make_state({"type": n, "v": -999}) for n in FAMILY}
+
+
+class MA(State):
+    ids: Sequence[int]
+
+
+class MB(State):
+    ids: Sequence[int]
+
+
+class MC(State):
+    ids: Sequence[int]
+
+
+METRICS = {"MA": MA, "MB": MB, "MC": MC}
+
+
+class MergeErr(Exception):
+    pass
+
+
+def _concat(lhs, rhs):
+    return type(rhs)(ids=(*lhs.ids, *rhs.ids))
+
+
+def _sum(lhs, rhs):
+    return type(rhs)(ids=(sum(lhs.ids) + sum(rhs.ids),))
+
+
+def _raising(lhs, rhs):
+    raise MergeErr("merge")
+
+
+MERGES = {"replace": lambda lhs, rhs: rhs, "concat": _concat, "sum": _sum, "raising": _raising}
+
+
+def merged_view(current, received):
+    """merge used for ScopeMetrics.metrics(merge=...): order-revealing concatenation"""
+    from haiway import MISSING
+
+    if current is MISSING:
+        return received
+    return type(received)(ids=(*current.ids, *received.ids))
+
+
+class LogErr(Exception):
+    pass
+
+
+def render_log(segments, token):
+    """segments: [["lit", text] | ["s", value] | ["d", int] | ["r", value]] -> (format string, args); format and
+    arguments agree by construction; the token makes the line findable among the library's own lines"""
+    fmt, args = [token], []
+    for kind, val in segments:
+        if kind == "lit":
+            fmt.append(str(val).replace("%", "%%"))
+        elif kind == "s":
+            fmt.append("%s")
+            args.append(val)
+        elif kind == "d":
+            fmt.append("%d")
+            args.append(int(val))
+        else:
+            fmt.append("%r")
+            args.append(val)
+    return " ".join(fmt), tuple(args)
+
+
+class Capture(logging.Handler):
+    def __init__(self, sink):
+        super().__init__(level=logging.DEBUG)
+        self.sink = sink
+
+    def emit(self, record):
+        self.sink.append(record)
 
 
 class ProgErr(Exception):
@@ -162,14 +238,14 @@ class Run:
         return {"state": st, "metrics": None if m is None else (m if m == "n/a" else id(m)), "group": None if g is None else (g if g == "n/a" else id(g))}
 
     # ------------------------------------------------------------------ interpreter
-    async def ops(self, ops, path, owner):
+    async def ops(self, ops, path, owner, mscope=None):
         for i, op in enumerate(ops):
-            await self.op(op, path + (i,), owner)
+            await self.op(op, path + (i,), owner, mscope)
 
-    async def op(self, op, path, owner):  # noqa: C901, PLR0912
+    async def op(self, op, path, owner, mscope=None):  # noqa: C901, PLR0912
         k = op["k"]
         if k in ("scope", "updated"):
-            await self.block(op, path, owner)
+            await self.block(op, path, owner, mscope)
         elif k == "probe":
             res = [(n, d, self.lookup(n, d)[:2]) for n, d in op.get("lookups", [])]
             raw = [self.lookup(n, d) for n, d in []]
@@ -186,11 +262,11 @@ class Run:
             self.ev("raise", path, exc=e)
             raise e
         elif k == "spawn":
-            self.spawn(op, path, owner)
+            self.spawn(op, path, owner, mscope)
         elif k == "record":
-            self.record(op, path)
+            self.record(op, path, mscope)
         elif k == "log":
-            self.do_log(op, path)
+            self.do_log(op, path, mscope)
         elif k == "check_cancellation":
             try:
                 ctx.check_cancellation()
@@ -201,11 +277,11 @@ class Run:
         else:
             raise ValueError(k)
 
-    def spawn(self, op, path, owner):
+    def spawn(self, op, path, owner, mscope=None):
         async def child():
             self.ev("task_start", path)
             try:
-                await self.ops(op["body"], path + ("t",), owner)
+                await self.ops(op["body"], path + ("t",), owner, mscope)
                 self.ev("task_end", path, how="return")
             except asyncio.CancelledError:
                 self.ev("task_end", path, how="cancelled")
@@ -253,9 +329,17 @@ class Run:
 
     def on_completion(self, path, metrics):
         self.completions.append((path, metrics))
-        self.ev("completion", path, metrics=metrics)
+        info = {}
+        try:
+            info["read"] = {n: (lambda m: None if m is None else tuple(m.ids))(metrics.read(T)) for n, T in METRICS.items()}
+            info["merged"] = {type(m).__name__: tuple(m.ids) for m in metrics.metrics(merge=merged_view)}
+            info["ident"] = (metrics.trace_id, metrics.label, metrics.identifier)
+            info["completed"] = metrics.is_completed
+        except Exception as exc:  # noqa: BLE001
+            info["error"] = repr(exc)
+        self.ev("completion", path, metrics=metrics, **info)
 
-    async def block(self, op, path, owner):  # noqa: C901
+    async def block(self, op, path, owner, mscope=None):  # noqa: C901
         fp_before = self.fingerprint()
         self.ev("block_enter", path, fp=fp_before, kind=op["k"], mode=op.get("mode"))
         states = [self.inst((path, "s", i), sv) for i, sv in enumerate(op.get("state", []))]
@@ -264,12 +348,12 @@ class Run:
             if op["k"] == "updated":
                 with ctx.updated(*states):
                     self.ev("body_start", path)
-                    await self.ops(op["body"], path, owner)
+                    await self.ops(op["body"], path, owner, mscope)
                     self.ev("body_end", path)
             elif op["mode"] == "sync":
                 with ctx.scope(op["name"], *states, **self.scope_kwargs(op, path)):
                     self.ev("body_start", path)
-                    await self.ops(op["body"], path, owner)
+                    await self.ops(op["body"], path, owner, path)
                     self.ev("body_end", path)
             else:
                 kw = self.scope_kwargs(op, path)
@@ -278,7 +362,7 @@ class Run:
                     kw["disposables"] = Disposables(*doubles) if op.get("disp_obj") else doubles
                 async with ctx.scope(op["name"], *states, **kw):
                     self.ev("body_start", path)
-                    await self.ops(op["body"], path, path)
+                    await self.ops(op["body"], path, path, path)
                     self.ev("body_end", path)
         except BaseException as exc:
             exc_seen = exc
@@ -288,11 +372,41 @@ class Run:
             self.ev("block_exit", path, fp=self.fingerprint(), exc=exc_seen, owned_done=owned, kind=op["k"], mode=op.get("mode"))
 
     # ------------------------------------------------------------------ metrics / logs (C10, C19)
-    def record(self, op, path):
-        raise NotImplementedError
+    def record(self, op, path, mscope):
+        T = METRICS[op["type"]]
+        rid = len(self.records) + 1
+        self.records.append(rid)
+        value = T(ids=(rid,))
+        raised = None
+        try:
+            if op["merge"] == "default":
+                ctx.record(value)
+            else:
+                ctx.record(value, merge=MERGES[op["merge"]])
+        except BaseException as exc:  # noqa: BLE001 - "recording never raises into user code"
+            raised = exc
+        self.ev("record", path, rid=rid, type=op["type"], merge=op["merge"], mscope=mscope, raised=raised)
+        if isinstance(raised, asyncio.CancelledError):
+            raise raised
 
-    def do_log(self, op, path):
-        raise NotImplementedError
+    def do_log(self, op, path, mscope):
+        token = f"tok{len(self.records) + len(self.log)}x"
+        fmt, args = render_log(op["fmt"], token)
+        exc = LogErr(token) if op.get("exc") else None
+        raised = None
+        try:
+            level = op["level"]
+            if level == "info":
+                ctx.log_info(fmt, *args)
+            elif level == "debug":
+                ctx.log_debug(fmt, *args, exception=exc)
+            elif level == "warning":
+                ctx.log_warning(fmt, *args, exception=exc)
+            else:
+                ctx.log_error(fmt, *args, exception=exc)
+        except BaseException as e:  # noqa: BLE001 - "logging never raises"
+            raised = e
+        self.ev("logop", path, token=token, level=op["level"], fmt=fmt, args=args, exc=exc if op.get("exc") and op["level"] != "info" else None, mscope=mscope, raised=raised)
 
 
 class Double:
